@@ -168,7 +168,8 @@ def graph_roles(ctx):
             out["loopnum" if flds[-1]["name"] == "loop_number" else "spanning"] = cb
     for k in ("loopnum", "spanning"):
         if k not in out:
-            raise RoleLost("graph routine `%s`: producer of the stored entry field" % k)
+            from .roles import writes_field
+            raise RoleLost("graph routine `%s`: producer of the stored entry field" % k, wanted=writes_field("loop_number", "mass_momentum_spanning"))
     idty = f.adts[idr["adt"]]["self_ty"]
     comps = [cb for bi, t, cb in R.local_callees(out["spanning"]) if cb.local_ty(0).startswith("alloc::vec::Vec<") and idty in cb.local_ty(0)]
     if len(set(id(c) for c in comps)) == 1:
